@@ -214,4 +214,39 @@ pub mod fuse_c {
     include!("/verif/kani/gen/playback_physical_operators_sort__fuse_c.rs");
 }
 
+/// C25: how bind_order_by (src/planner/binder.rs) turns the parsed ASC/DESC and NULLS FIRST/LAST options
+/// into the SortExpr the operators above act on: ascending unless DESC is written; NULLs where the query
+/// says, and LAST when it says nothing.
+pub mod bind_c {
+    use crate::planner::{NullOrdering, SortDirection};
+    pub struct KOrderByOptions {
+        pub asc: Option<bool>,
+        pub nulls_first: Option<bool>,
+    }
+    pub struct KOrderByExpr {
+        pub options: KOrderByOptions,
+    }
+    #[derive(Clone, Copy, PartialEq)]
+    pub struct KExpr(pub u8);
+    pub struct SortExpr {
+        pub expr: KExpr,
+        pub direction: SortDirection,
+        pub nulls: NullOrdering,
+    }
+    include!("/verif/kani/gen/kx_c25_bind_direction_nulls.rs");
+
+    /// all nine option combinations (loop-free, full domain)
+    #[kani::proof]
+    fn c25_kx_bind_order_by_direction_and_null_placement() {
+        let asc: Option<bool> = if kani::any() { Some(kani::any()) } else { None };
+        let nulls_first: Option<bool> = if kani::any() { Some(kani::any()) } else { None };
+        let e = KExpr(kani::any());
+        let s = kx_c25_bind_direction_nulls(&KOrderByExpr { options: KOrderByOptions { asc, nulls_first } }, e).expect("Ok");
+        assert!(s.expr == e);
+        assert!((s.direction == SortDirection::Desc) == (asc == Some(false))); // DESC exactly when written
+        assert!(matches!(s.nulls, NullOrdering::NullsFirst) == (nulls_first == Some(true))); // FIRST exactly when written; default LAST
+    }
+    include!("/verif/kani/gen/playback_physical_operators_sort__bind_c.rs");
+}
+
 include!("/verif/kani/gen/playback_physical_operators_sort.rs");
